@@ -125,7 +125,12 @@ fn cell<T: Default + 'static>(t: &mut Tot, ctor: &str, n: usize) {
         _ => size_of::<H>(),
     };
     // lower bound of what the allocation must hold, in 128-bit arithmetic (padding ignored)
-    let need: u128 = size_of::<usize>() as u128 + hdr as u128 + (n as u128) * (ts as u128);
+    let mut need: u128 = size_of::<usize>() as u128 + hdr as u128 + (n as u128) * (ts as u128);
+    if ctor.contains("lying") {
+        // an implementation may gather the items in scratch memory first: the first big request may
+        // then be for the elements alone
+        need = (n as u128) * (ts as u128);
+    }
     REFUSED_N.store(0, SeqCst);
     REFUSED_SIZE.store(0, SeqCst);
     LARGEST_GRANTED.store(0, SeqCst);
@@ -142,9 +147,12 @@ fn cell<T: Default + 'static>(t: &mut Tot, ctor: &str, n: usize) {
     match r {
         Ok(len) => {
             t.returned += 1;
-            // lying iterators with real < claim must not return at all (under-delivery panics)
-            let lying_short = ctor.contains("lying") && n > 2;
-            if need > isize::MAX as u128 || refused > 0 || lying_short {
+            // an iterator that claimed n and really had two items: a handle with exactly those two is
+            // a correct answer, any other length is not
+            let lying = ctor.contains("lying");
+            if lying && len <= 2 && refused == 0 {
+                // true contents
+            } else if need > isize::MAX as u128 || refused > 0 || lying {
                 viol("returned", format!("the constructor returned a handle of length {} (largest granted request {} bytes, refused requests {})", len, LARGEST_GRANTED.load(SeqCst), refused));
             } else if (LARGEST_GRANTED.load(SeqCst) as u128) < need {
                 viol("short-request", format!("returned, but the largest allocation request was {} bytes", LARGEST_GRANTED.load(SeqCst)));
